@@ -19,7 +19,7 @@ const (
 	StNotes   = "notes"
 	StTickets = "tickets"
 	StGroups  = "groups"
-	StMemos   = "memos" // topic -> groups via AddFkConstraint(nullable, CascadeDelete): a cascade target without child stores
+	StMemos   = "memos" // topic -> groups via AddFkConstraint(not nullable, CascadeDelete): a cascade target without child stores
 )
 
 var AllStores = []string{StDepts, StPeople, StStaff, StPX, StBadges, StNotes, StTickets, StGroups, StMemos}
@@ -271,7 +271,13 @@ type Stores struct {
 	Tickets *TicketStore
 	Groups  *GroupStore
 	Memos   *MemoStore
+
+	// sharedQ: one parsed query per people view, evaluated by every reader of the run (C18). Explicit skip and limit:
+	// without them the scanner writes the paging defaults into the query it is given
+	sharedQ map[string]ast.Query
 }
+
+const sharedQueryText = `name in ["n1", "n3", "n5"] skip 0 limit 100`
 
 const rootBucket = "stores"
 
@@ -417,13 +423,21 @@ func NewStores() *Stores {
 
 	mm := s.Memos
 	mm.AddIdSymbol("id", ast.NodeTypeString)
-	mm.AddFkConstraint(mm.AddFkSymbol("topic", g), true, boltz.CascadeDelete)
+	mm.AddFkConstraint(mm.AddFkSymbol("topic", g), false, boltz.CascadeDelete) // not nullable
 
 	// ---- linked ----
 	p.lcGroups = p.AddLinkCollection(p.symGroups, g.symMembers)
 	g.lcMembers = g.AddLinkCollection(g.symMembers, p.symGroups)
 	p.rcKudos = p.AddRefCountedLinkCollection(p.symKudos, g.symKudosFrom)
 	g.rcKudosFrom = g.AddRefCountedLinkCollection(g.symKudosFrom, p.symKudos)
+	s.sharedQ = map[string]ast.Query{}
+	for _, name := range []string{StPeople, StStaff, StPX} {
+		q, err := ast.Parse(s.ByName(name), sharedQueryText)
+		if err != nil {
+			panic("shared query: " + err.Error())
+		}
+		s.sharedQ[name] = q
+	}
 	return s
 }
 
